@@ -2,6 +2,7 @@
 package main
 
 import (
+	"encoding/json"
 	"flag"
 	"fmt"
 	"os"
@@ -21,6 +22,7 @@ func main() {
 	solver := flag.String("solver", "z3", "incremental solver")
 	capS := flag.Int("cap", 120, "wall-clock cap per harness (s)")
 	thorough := flag.Bool("thorough", false, "thorough tier bounds")
+	concrete := flag.String("concrete", "", "replay JSON: run in concrete mode with these inputs")
 	flag.Parse()
 	var patterns []string
 	if *pkgs != "" {
@@ -42,7 +44,16 @@ func main() {
 	}
 	sort.Strings(names)
 	for _, n := range names {
-		e := sym.NewEngine(ld, sym.Config{Solver: *solver, Deadline: time.Now().Add(time.Duration(*capS) * time.Second), Thorough: *thorough})
+		var conc map[string][]uint64
+		if *concrete != "" {
+			var d struct {
+				Inputs map[string][]uint64 `json:"inputs"`
+			}
+			b, _ := os.ReadFile(*concrete)
+			json.Unmarshal(b, &d)
+			conc = d.Inputs
+		}
+		e := sym.NewEngine(ld, sym.Config{Concrete: conc, Solver: *solver, Deadline: time.Now().Add(time.Duration(*capS) * time.Second), Thorough: *thorough})
 		r := e.Explore(ld.Harnesses[n])
 		fmt.Printf("== %s: paths=%d pruned=%d steps=%d queries=%d solver=%v wall=%v\n", n, r.Paths, r.PathsPruned, r.Steps, r.Queries, r.SolverTime.Round(time.Millisecond), r.Wall.Round(time.Millisecond))
 		var keys []string
